@@ -51,7 +51,7 @@ Definition Qltb (a b : Q) : bool := negb (Qle_bool b a).
 
 (* ---- events --------------------------------------------------------------------------- *)
 Inductive kind := KSys | KTempo.
-Inductive src := SSched | SClear | SStop.
+Inductive src := SSched | SClear | SStop | STempo.
 Inductive res :=
 | RDelta (d : Q)      (* int or float (not bool): re-schedule *)
 | ROther              (* None, any other value, or StopStream *)
@@ -60,10 +60,11 @@ Inductive cause := CNotified | CTimeout.     (* what Condition.wait returned *)
 
 Inductive event :=
 | EAdd (t : Q) (k : task)          (* _task_queue.add(t, k) in _sched_add *)
-| ENotify (s : src)                (* _sched_cond.notify()/notify_all() in _sched_add / clear / _stop *)
+| ENotify (s : src)                (* _sched_cond.notify()/notify_all() in _sched_add / clear / _stop / tempo setters *)
 | EClearPop (t : Q) (k : task)     (* _task_queue.pop() in clear() *)
 | EQClear                          (* _task_queue.clear(); _run_sched = False   in _stop/_sched_stop *)
-| ETempo (m : tmap)                (* tempo / etempo / beats setter: new map, then notify() *)
+| ETempo (m : tmap)                (* tempo / etempo / beats setter: the fields after the update; the code then
+                                      does  with self._sched_cond: notify()  = ENotify STempo, whoever the caller is *)
 | ETime (t : Q)                    (* main.elapsed_time() read by _run *)
 | EWaitBegin (timeout : option Q)  (* _sched_cond.wait(timeout) entered *)
 | EWaitEnd (c : cause)             (* ... returned, lock re-acquired *)
@@ -82,7 +83,7 @@ Inductive pc :=
 | PReadd (nb : Q) (t : Q) (k : task)   (* numeric return: about to _sched_add(t, k) *)
 | PExited.
 
-Inductive pend := NoPend | OweNotify | InClear | InStop.
+Inductive pend := NoPend | OweNotify | InClear | InStop | OweTempo.
 
 Record cst := mkC {
   c_kind : kind;
@@ -139,6 +140,7 @@ Definition step (s : cst) (e : event) : option cst :=
   match c_pend s with
   | OweNotify => match e with ENotify SSched => Some (do_notify s) | _ => None end
   | InStop => match e with ENotify SStop => Some (do_notify s) | _ => None end
+  | OweTempo => match e with ENotify STempo => Some (do_notify s) | _ => None end
   | InClear =>
       match e, c_q s with
       | EClearPop t k, h :: r =>
@@ -175,7 +177,7 @@ Definition step (s : cst) (e : event) : option cst :=
           match c_kind s with
           | KTempo => if client_ok p
                       then Some (mkC (c_kind s) (c_q s) (c_n s) p (c_run s)
-                                     (c_notified s || waiting p) (c_last s) m NoPend)
+                                     (c_notified s) (c_last s) m OweTempo)
                       else None
           | KSys => None
           end
@@ -338,6 +340,11 @@ Fixpoint mon_notify (l : mpend) (n : nat) (evs : list event) : bool :=
       end
   | EPop _ k :: r | EClearPop _ k :: r => mon_notify (mp_remove k l) n r
   | EQClear :: r => mon_notify [] 0 r
+  | ETempo _ :: r =>
+      match r with
+      | ENotify STempo :: _ => mon_notify l n r
+      | _ => false
+      end
   | _ :: r => mon_notify l n r
   end.
 
